@@ -75,6 +75,7 @@ theorem inv_step (h : Heap) (hi : Inv h) (s : HStep) : Inv (h.step s) := by
   | likeKw b a => simp only [Heap.step]; split <;> (first | exact hi | exact inv_alloc h hi _ _ _ _ _ _ _)
   | deepcopy b a => simp only [Heap.step]; split <;> (first | exact hi | exact inv_alloc h hi _ _ _ _ _ _ _)
   | likeM b a t => simp only [Heap.step]; split <;> (first | exact hi | exact inv_alloc h hi _ _ _ _ _ _ _)
+  | fxpLike b a v => simp only [Heap.step]; split <;> (first | exact hi | exact inv_alloc h hi _ _ _ _ _ _ _)
   | conv b a fmt => simp only [Heap.step]; split <;> (first | exact hi | exact inv_alloc h hi _ _ _ _ _ _ _)
   | add c a b =>
     simp only [Heap.step]
@@ -228,6 +229,7 @@ theorem derive_preserves (h : Heap) (hi : Inv h) (s : HStep) (hd : isDerive s = 
   | likeKw b a => simp only [Heap.step]; split <;> (first | rfl | exact alloc_obs _ _ _ _ _ _ _ _ _ hc)
   | deepcopy b a => simp only [Heap.step]; split <;> (first | rfl | exact alloc_obs _ _ _ _ _ _ _ _ _ hc)
   | likeM b a t => simp only [Heap.step]; split <;> (first | rfl | exact alloc_obs _ _ _ _ _ _ _ _ _ hc)
+  | fxpLike b a v => simp only [Heap.step]; split <;> (first | rfl | exact alloc_obs _ _ _ _ _ _ _ _ _ hc)
   | conv b a fmt => simp only [Heap.step]; split <;> (first | rfl | exact alloc_obs _ _ _ _ _ _ _ _ _ hc)
   | add c a b =>
     simp only [Heap.step]
@@ -290,6 +292,7 @@ theorem mutation_frame (h : Heap) (hi : Inv h) (s : HStep) (a : String) (x y : H
   | likeKw _ _ => simp [target] at ht
   | deepcopy _ _ => simp [target] at ht
   | likeM _ _ _ => simp [target] at ht
+  | fxpLike _ _ _ => simp [target] at ht
   | conv _ _ _ => simp [target] at ht
   | add _ _ _ => simp [target] at ht
   | invert _ _ => simp [target] at ht
